@@ -6,6 +6,7 @@ package main
 import (
 	"fmt"
 	"go/types"
+	"os"
 	"strings"
 
 	"golang.org/x/tools/go/ssa"
@@ -551,6 +552,11 @@ func l2(w *World, r *Report) {
 		r.Check(len(sets) > 0 && len(removes) > 0 && !bad, "L-2", "removals-before-updates", "no tree.Remove can follow a tree.Set within one commit (issue #58: a re-created key survives)", "a removal can be applied after an update within one commit (a key deleted and re-created in the block would vanish)", fmtSites(w, append(removes, sets...)...)...)
 		// SaveVersion exactly once on every successful path, after every update
 		okSave := complete
+		if os.Getenv("RIGOCHECK_DEBUG") == "l2" {
+			for _, p := range paths {
+				fmt.Fprintln(os.Stderr, "L2 path", p.Term, p.Events, func() string { if p.Ret != nil { return w.InstrPos(p.Ret) }; return "-" }())
+			}
+		}
 		nOK := 0
 		for _, p := range paths {
 			if p.Term != "ok" && p.Term != "unknown" {
